@@ -321,7 +321,10 @@ std::string dump_block(CDNS::CdnsBlockRead& b) {
     return o + "}";
 }
 
-std::string read_file(const std::string& kind, const std::string& data) {
+std::string read_file(const std::string& kind_in, const std::string& data) {
+    // a trailing '+' (s+, f+): the application goes on calling read_block() after the first exception
+    const bool go_on = !kind_in.empty() && kind_in.back() == '+';
+    const std::string kind = go_on ? kind_in.substr(0, kind_in.size() - 1) : kind_in;
     std::unique_ptr<std::istream> in;
     int mfd = -1;
     int pfd[2] = {-1, -1};
@@ -344,8 +347,10 @@ std::string read_file(const std::string& kind, const std::string& data) {
         in = std::make_unique<std::ifstream>("/proc/self/fd/" + std::to_string(mfd), std::ifstream::binary);
     } else in = std::make_unique<std::istringstream>(data);
     std::string out = "I ";
+    std::unique_ptr<CDNS::CdnsReader> rdr;
     try {
-        CDNS::CdnsReader reader(*in);
+        rdr.reset(new CDNS::CdnsReader(*in));
+        CDNS::CdnsReader& reader = *rdr;
         out += rec::show_preamble(reader.m_file_preamble);
         bool eof = false;
         if (kind == "R") {
@@ -376,6 +381,21 @@ std::string read_file(const std::string& kind, const std::string& data) {
     } catch (CDNS::CdnsDecoderEnd&) { out += " E:end"; }
     catch (CDNS::CdnsDecoderException&) { out += " E:dec"; }
     catch (std::exception&) { out += " E:other"; }
+    if (go_on && rdr && out.size() >= 6 && out.compare(out.size() - 6, 2, " E") == 0) {
+        // every further call must report the condition again: it may neither hand out a block nor claim a clean end of the file
+        unsigned more = 6 + static_cast<unsigned>(std::min<uint64_t>(rdr->m_blocks_count, 40));
+        for (unsigned i = 0; i < more; i++) {
+            try {
+                bool eof = false;
+                CDNS::CdnsBlockRead b = rdr->read_block(eof);
+                out += eof ? " +EOF" : " +B";
+                if (eof) break;
+            } catch (CDNS::CdnsDecoderEnd&) { out += " +E:end"; }
+            catch (CDNS::CdnsDecoderException&) { out += " +E:dec"; }
+            catch (std::exception&) { out += " +E:other"; }
+        }
+    }
+    rdr.reset();
     if (feeder.joinable()) { in.reset(); close(pfd[0]); feeder.join(); }
     if (mfd >= 0) close(mfd);
     return out;
